@@ -1,0 +1,22 @@
+//go:build verif
+
+package syslog
+
+// Contracts for the verification tooling (build tag "verif"). Comment-only: never compiled into the daemon.
+
+//@ pred IsRecord(line, p, pad, m) := line == p ++ pad ++ m ++ "\n" && inre(p, "[^ \n]*") && inre(pad, " +")
+//@   | && !prefixof(" ", m) && !contains(m, "\n")
+
+//@ func (*SyslogIngester).ParseSyslogMessage
+//@   requires s != nil
+//@   modifies nothing
+//@   ensures[pipe] forall p string, pad string, m string :: IsRecord(entry, p, pad, m) ==> result.PID == p && result.Message == m
+
+//@ func (*SyslogIngester).Process
+//@   requires s != nil && s.SshdProcessor != nil && ctx != nil
+//@   requires dyn(s.SshdProcessor) == typeid("*processors/sshd.SshdProcessorer")
+//@   requires SshdOK(s.SshdProcessor)
+//@   modifies out, ctr, chans, g_sshd_calls, g_sshd_pid, g_sshd_msg, g_sshd_ctx
+//@   allocates
+//@   ensures[once] g_sshd_calls == old(g_sshd_calls) + 1 && g_sshd_ctx == ctx
+//@   ensures[direct] forall p string, pad string, m string :: IsRecord(line, p, pad, m) ==> g_sshd_pid == p && g_sshd_msg == m
